@@ -98,8 +98,6 @@ Lemma total_pullback {A K} (f : A -> K) (c : K -> K -> comparison) :
   total_cmp c -> total_cmp (fun x y => c (f x) (f y)).
 Proof. intros T. split; intros; [apply (tc_antisym c T)|now apply (tc_eq_l c T)|now apply (tc_lt_trans c T _ (f y))]. Qed.
 
-Definition lexc {K L} (c : K -> K -> comparison) (d : L -> L -> comparison) (a b : K * L) : comparison :=
-  match c (fst a) (fst b) with Eq => d (snd a) (snd b) | o => o end.
 Lemma total_lexc {K L} (c : K -> K -> comparison) (d : L -> L -> comparison) :
   total_cmp c -> total_cmp d -> total_cmp (lexc c d).
 Proof.
@@ -242,7 +240,6 @@ Proof.
     destruct H; discriminate.
 Qed.
 
-Definition is_Eq (o : option comparison) : bool := match o with Some Eq => true | _ => false end.
 
 Theorem eq_is_exact a b : wf_real a -> wf_real b ->
   nreal_eq a b = is_Eq (exact_cmp (real_val a) (real_val b)).
